@@ -178,7 +178,45 @@ class C10(Profile):
         return cfg
 
 
-PROFILES = {"C08": C08(), "C02": C02(), "C09": C09(), "C10": C10()}
+class C11(Profile):
+    name = "C11"
+    steps = (30, 60)
+    expected_probes = ["fresh_compared", "sampling_without_prior_read",
+                       "both_raise", "first_read_after_fault",
+                       "callback_failure_propagated"]
+
+    @property
+    def monitors(self):
+        from .monitors.c11 import FreshMonitor  # noqa: PLC0415
+        return [FreshMonitor]
+
+    @property
+    def clients(self):
+        from . import consumers as co  # noqa: PLC0415
+        return [(cl.Builder, 2.5), (cl.Composer, 1), (cl.Rewriter, 0.7),
+                (cl.Tuner, 1.5), (co.SamplerUser, 4), (co.QuickUser, 3),
+                (co.AnalyzerUser, 1.5)]
+
+    def swarm(self, rng):
+        cfg = super().swarm(rng)
+        cfg["max_modes"] = rng.randint(2, 5)
+        cfg["emu_max_modes"] = 6
+        cfg["max_total_modes"] = 8
+        cfg["max_heralds"] = 2
+        cfg["max_herald_photons"] = 2
+        cfg["max_photons"] = rng.choice([1, 2, 2, 3])
+        cfg["max_params"] = rng.randint(0, 4)
+        cfg["p_poison"] = rng.choice([0.05, 0.1, 0.2])
+        for k in ("sampler_user", "quick_user", "analyzer_user"):
+            pass
+        # at least one consumer kind is always on
+        w = cfg["weights"]
+        if w["sampler_user"] == 0 and w["quick_user"] == 0 and w["analyzer_user"] == 0:
+            w["sampler_user"] = 4
+        return cfg
+
+
+PROFILES = {"C11": C11(), "C08": C08(), "C02": C02(), "C09": C09(), "C10": C10()}
 
 
 def get(name: str) -> Profile:
